@@ -127,6 +127,8 @@ def main():
     else:
         if not re.search(r"gd_OpenAt\s*\(\s*D\s*,\s*dirfd\s*,\s*tmpl\s*,\s*O_RDWR\s*\|\s*O_CREAT\s*\|\s*O_EXCL", mk):
             problems.append("_GD_MakeTempFile: exclusive creation (O_RDWR | O_CREAT | O_EXCL) not recognised")
+        if not re.search(r"while\s*\(\s*fd\s*<\s*0\s*&&\s*errno\s*==\s*EEXIST\s*\)", mk):
+            problems.append("_GD_MakeTempFile: the retry loop must repeat only a FAILED creation (fd < 0 && errno == EEXIST)")
     os.makedirs(os.path.dirname(OUT), exist_ok=True)
     txt = ("(* generated by translate/tr_flushproto.py from src/flush.c, src/encoding.c -- do not edit *)\n"
            "Definition fdopen_cleans : bool := %s.\n"
